@@ -37,14 +37,14 @@ def gen_cases(tier, seed):
     rng = random.Random(151515 + seed)
     cases = []
     grids = [(1, 1), (2, 1), (1, 2), (2, 2), (3, 1), (1, 3), (3, 2), (2, 3)]
-    n = 32 if tier == "quick" else 800
+    n = 32 if tier == "quick" else 4000
     for k in range(n):
         nth = rng.choice([4, 5, 6, 7, 8, 9])
         model = ["chi0", "chi1", "kinetic"][k % 3]
         data = ["init", "init-aliased", "random", "random-tiny", "sidebands"][(k // 3) % 5]
         cases.append({"kind": "pipeline", "npts": [rng.randint(6, 9), nth, rng.randint(7, 8), rng.randint(6, 9)], "nprocs": list(grids[k % len(grids)]),
                       "model": model, "data": data, "seed": rng.randrange(1 << 30), "cost": 200})
-    for k in range(4 if tier == "quick" else 40):
+    for k in range(4 if tier == "quick" else 120):
         cases.append({"kind": "equilibrium", "npts": [8, rng.choice([7, 8]), 8, 8], "nprocs": list([(1, 1), (2, 1), (2, 2), (1, 2)][k % 4]), "iota": [0.0, 0.8][k % 2],
                       "seed": rng.randrange(1 << 30), "cost": 2000})
     return cases
